@@ -506,7 +506,11 @@ pub fn gen_seq(src: &mut Src<'_>, cfg: &SeqCfg) -> SeqCase {
 				if !s.lost && !s.guard {
 					st[t].key = true;
 				}
-				Step::GetKey
+				if src.chance(sw.p_unwinding_drop) {
+					Step::UnwindingDrop { inner: Box::new(Step::GetKey) }
+				} else {
+					Step::GetKey
+				}
 			}
 			1 => {
 				st[t].key = false;
@@ -618,6 +622,8 @@ pub struct ConcCfg {
 	pub p_unlock_fn: u8,
 	pub p_yield: u8,
 	pub p_debug_in_body: u8,
+	/// chance of a `{:?}` of some target between two acquisitions
+	pub p_debug_step: u8,
 	pub p_coll_target: u8,
 	pub max_sched: usize,
 	/// first thread always uses a retrying collection when one exists
@@ -639,6 +645,7 @@ impl Default for ConcCfg {
 			p_unlock_fn: 100,
 			p_yield: 160,
 			p_debug_in_body: 0,
+			p_debug_step: 0,
 			p_coll_target: 215,
 			max_sched: 48,
 			retry_first: false,
@@ -657,6 +664,9 @@ pub fn gen_conc(src: &mut Src<'_>, cfg: &ConcCfg) -> ConcCase {
 		let na = 1 + src.pick(cfg.max_acq);
 		let mut prog = Vec::new();
 		for a in 0..na {
+			if src.chance(cfg.p_debug_step) {
+				prog.push(Step::Debug { target: gen_target(src, &world, cfg.p_coll_target), cap: None, payload: 0 });
+			}
 			let mut target = gen_target(src, &world, cfg.p_coll_target);
 			if cfg.retry_first && t == 0 && a == 0 && !retry_colls.is_empty() {
 				target = TargetRef::Coll(retry_colls[src.pick(retry_colls.len())]);
